@@ -17,7 +17,7 @@ MANIFEST = {
  'design_ref': 'DESIGN.md §6 C02',
 }
 THEOREMS = ['C02.capSites_table', 'C02.cap_growth_entitled', 'C02.no_new_owner_step', 'C02.not_granted_owner', 'C02.reload_caps_sub',
-            'C02.no_new_owner_reload', 'C02.reload_preserves_inv', 'C02.step_preserves_inv', 'C02.history_safe',
+            'C02.no_new_owner_reload', 'C02.reload_preserves_inv', 'C02.reloadNoFlush_preserves_inv', 'C02.step_preserves_inv', 'C02.history_safe',
             'C02.st0_inv', 'C02.cfg0_hashSafe']
 TRUSTED = ['Lean 4.33.0 kernel; axioms ⊆ {propext, Classical.choice, Quot.sound}',
            'harness/c02.py generators, snapshot and canonicalisation code, hex line protocol',
@@ -115,9 +115,12 @@ def live_chans(cs):
     (checkCapability does so); such a record is what getChannel would return anyway, so it is not compared"""
     return [(n, c) for n, c in c16.canon_chans(cs) if c != DEFAULT_CHAN]
 
+def canon_auth(a):
+    return a if a == '-' else ';'.join(sorted(a.split(';'), key=lambda e: int(e.split('=')[0])))
+
 def enc_state(S):
     auth = '-' if not S['auth'] else ';'.join('%d=%s' % (i, c16.encL('+', hs)) for i, hs in S['auth'])
-    return '\t'.join([c16.enc_users(c16.canon_users(S['users'])), auth, str(S['nextId']),
+    return '\t'.join([c16.enc_users(c16.canon_users(S['users'])), canon_auth(auth), str(S['nextId']),
                       c16.enc_chans(live_chans(S['chans'])), c16.enc_entries(str, sorted(S['ignores'])),
                       c16.encL(',', S['defaults']), S['cu']])
 
@@ -126,7 +129,7 @@ def canon_model_state(fields):
     if cu != '~':
         idp, rest = cu.split(':', 1)
         cu = idp + ':' + c16.enc_user_body(c16.canon_user(c16.dec_user_body(rest.split(':'))))
-    return '\t'.join([c16.enc_users(c16.canon_users(c16.dec_users(us))), auth, nid,
+    return '\t'.join([c16.enc_users(c16.canon_users(c16.dec_users(us))), canon_auth(auth), nid,
                       c16.enc_chans(live_chans(c16.dec_chans(chans))),
                       c16.enc_entries(str, sorted(c16.dec_entries(int, ign))),
                       c16.encL(',', sorted(c16.decL(',', dflt))), cu])
@@ -160,7 +163,8 @@ def gen_cmd(r, S=None):
     k = r.choice(['register', 'register', 'unregister', 'changename', 'changename', 'identify', 'unidentify', 'hostmaskAdd',
                   'hostmaskAdd', 'hostmaskRemove', 'setPassword', 'setSecure', 'capAdd', 'capAdd', 'capAdd', 'capAdd', 'capRemove',
                   'chanCapAdd', 'chanCapAdd', 'chanCapRemove', 'chanCapSet', 'chanCapUnset', 'chanSetDefault', 'ignoreAdd',
-                  'ignoreRemove', 'defaultCapAdd', 'defaultCapRemove', 'configCaps', 'flushReload', 'flushReload'])
+                  'ignoreRemove', 'defaultCapAdd', 'defaultCapRemove', 'configCaps', 'flushReload', 'flushReload',
+                  'reload', 'reload'])
     users = S['users'] if S else []
     live_names = [u['name'] for _, u in users if u['name']] or NAMES
     def name():
@@ -302,6 +306,15 @@ def run_history(b, r, n_steps, out, hist_id):
             ircdb.ignores.flush(); ircdb.ignores.reload()
             ok = True
             guard = None
+        elif k == 'reload':
+            # SIGHUP / 'config reload' (Config._reload): the files are read as they are, nothing is flushed first
+            I16 = type('I', (), {'ircdb': ircdb})
+            if any(c16.inverse_pair(I16, u['caps']) for _, u in prev['users']) or \
+                    any(c16.inverse_pair(I16, c['caps']) for _, c in prev['chans']):
+                continue
+            ircdb.users.reload(); ircdb.ignores.reload(); ircdb.channels.reload()
+            ok = True
+            guard = None
         else:
             text = irc_text(b, k, args)
             if text is None:
@@ -353,8 +366,8 @@ def run_history(b, r, n_steps, out, hist_id):
             gained = set(u['caps']) - old
             if not gained:
                 continue
-            if k == 'flushReload':
-                msgs.append('account %d gained %s at flush+reload' % (i, sorted(gained)))
+            if k in ('flushReload', 'reload'):
+                msgs.append('account %d gained %s at %s' % (i, sorted(gained), 'flush+reload' if k == 'flushReload' else 'a reload without flush (SIGHUP / config reload)'))
             elif k not in ('capAdd', 'chanCapAdd'):
                 msgs.append('account %d gained %s through %s' % (i, sorted(gained), k))
             elif guard is None or not guard[2]:
@@ -373,7 +386,7 @@ def run_history(b, r, n_steps, out, hist_id):
         changed = enc_state(cur) != enc_state(prev)
         tags = [k] + (['changed'] if changed else []) + (['ok'] if ok else [])
         c = Case({'history': hist_id, 'step': si, 'trail': list(trail)}, impl=('1' if ok else '0') + '\t' + enc_state(cur),
-                 oracle_ok=(not msgs), oracle_msg='; '.join(msgs), kind='history', tags=tuple(tags) if (changed or k == 'flushReload') else ())
+                 oracle_ok=(not msgs), oracle_msg='; '.join(msgs), kind='history', tags=tuple(tags) if (changed or k in ('flushReload', 'reload')) else ())
         steps.append(c)
         drv.append('cmd\t%s\t%s' % (wire.enc(actor), enc_cmd(k, args)))
         prev = cur
@@ -447,6 +460,9 @@ def replay(ctx, path):
             b.ircdb.users.flush(); b.ircdb.users.reload(); b.ircdb.channels.flush(); b.ircdb.channels.reload()
             b.ircdb.ignores.flush(); b.ircdb.ignores.reload()
             print('flush+reload')
+        elif k == 'reload':
+            b.ircdb.users.reload(); b.ircdb.ignores.reload(); b.ircdb.channels.reload()
+            print('reload without flush')
         else:
             text = irc_text(b, k, args)
             outm = bot.feed(b, actor, b.irc.nick, text)
